@@ -329,7 +329,7 @@ enum Origin {
     Channel(usize, usize),
 }
 
-pub const SPECIALS_C04: [&str; 2] = ["shared-formula-group", "column-entries-with-gap"];
+pub const SPECIALS_C04: [&str; 3] = ["shared-formula-group", "apostrophe-sheet-in-cf-reference", "column-entries-with-gap"];
 
 fn build_special(name: &str) -> Spreadsheet {
     let mut b = new_file();
@@ -351,6 +351,14 @@ fn build_special(name: &str) -> Spreadsheet {
                 c.get_cell_value_mut().set_formula_obj(obj);
                 c.set_formula_result_default(format!("{}", (k + 1) * 2));
             }
+        }
+        "apostrophe-sheet-in-cf-reference" => {
+            // conditional-format rules whose formula is a BARE reference to a sheet whose name needs quoting and doubling
+            ws.get_cell_mut("A1").set_value_number(1);
+            crate::wbuild::add_cond_formats(ws, 2, "'Bob''s data'!$A$1");
+            let other = b.new_sheet("Bob's data").unwrap();
+            other.get_cell_mut("A1").set_value_number(5);
+            return b;
         }
         _ => {
             // column entries on C..G and I only (adjacent equal pairs, then a change; H is a second gap), cells also in A and B which have no entry of their own
